@@ -90,7 +90,7 @@ func runVersionLock(c vlCase, classes map[string]bool) string {
 		if !legacy {
 			want, why := refRefuse(ver, forks, s.Version)
 			got := err != nil
-			if got && !want && Open("C19/fork-below-start") && si >= 1 {
+			if got && !want && deviates("C19/fork-below-start") && si >= 1 {
 				// registered finding, exactly: a false refusal at a later start when a fork with a real
 				// minimum lies at or below the first synced height - 1. Any other disagreement is new.
 				for _, f := range c.Forks {
@@ -306,6 +306,8 @@ func TestC19(t *testing.T) {
 func init() {
 	RegisterProbe("C19/fork-below-start", func() (bool, string, interface{}) {
 		c := vlCase{Start: 50, Forks: []Fork{{Height: 48, MinVer: 1}}, Sessions: []vlSession{{1, 3}, {1, 2}, {1, 0}}}
+		ModelStrict = true
+		defer func() { ModelStrict = false }()
 		msg := runVersionLock(c, map[string]bool{})
 		return msg != "", msg, c
 	})
